@@ -33,6 +33,7 @@ RULE = ('tables from tables.rand_spec (1..5 x 1..5, layout recipes, all id alpha
         'JSON text as written, json.dumps default, indent=2 and separators=(",",":"); plus requests naming an unknown id '
         '(an unrelated string, a stored id of maximal length with extra characters appended, a proper prefix, another case, an id of the other axis), one '
         'whole read per file, and a stream of tables with 9..12 ids on one axis (kept indices >= 8, two-digit indices) with small subsets; '
+        'JSON documents in which only some ids carry metadata (json readers only: the HDF5 writer refuses them); '
         'tables whose row/column strings trigger the known findings F34/F35 reach the JSON slicer only as tagged witness cases; '
         'non-trivial = axis with >= 2 ids and a proper subset, or an unknown-id request; distinct by case hash')
 TRUSTED = ['hand-written models coq/Model/Subset.v (array level) and coq/Model/Slicer.v (text level) tied to biom/table.py, '
@@ -76,32 +77,40 @@ def art(c):
     layout = T.layout_info(t)            # before the writers touch the representation
     gen = c.get('gen', 'g')
     path = os.path.join(_TMP, key[:24] + '.biom')
-    with h5py.File(path, 'w') as f:
-        t.to_hdf5(f, gen, creation_date=_DATE)
     js = t.to_json(gen, creation_date=_DATE)
     doc = json.loads(js)
-    a = {'path': path, 'layout': layout,
+    a = {'path': None, 'layout': layout, 'stored': [],
          'text': {'lib': js, 'dumps': json.dumps(doc), 'indent': json.dumps(doc, indent=2),
                   'compact': json.dumps(doc, separators=(',', ':'))}}
-    with h5py.File(path, 'r') as f:
-        full = Table.from_hdf5(f)
-        a['h5_all'] = T.snapshot(full)
-        raw = {}
-        for ax in ('observation', 'sample'):
-            g = f[ax]
-            raw[ax] = {'ids': [i.decode('utf8') if isinstance(i, bytes) else str(i) for i in g['ids'][:]],
-                       'indptr': [int(x) for x in g['matrix/indptr'][:]],
-                       'indices': [int(x) for x in g['matrix/indices'][:]],
-                       'data': [float(x) for x in g['matrix/data'][:]]}
-        a['raw'] = raw
-        a['stored'] = []
-        for ax in ('observation', 'sample'):
-            r = raw[ax]
-            if any(v == 0 for v in r['data']):
-                a['stored'].append('file:%s-view-holds-stored-zero' % ax)
-            segs = [r['indices'][r['indptr'][i]:r['indptr'][i + 1]] for i in range(len(r['indptr']) - 1)]
-            if any(sg != sorted(sg) for sg in segs):
-                a['stored'].append('file:%s-view-unsorted-indices' % ax)
+    try:
+        with h5py.File(path, 'w') as f:
+            t.to_hdf5(f, gen, creation_date=_DATE)
+    except ValueError:
+        # partially empty metadata cannot be written to HDF5 ("inconsistent metadata categories"):
+        # such a table exists as a JSON document only
+        if c.get('kind') not in ('json', 'cmd_json'):
+            raise
+        path = None
+    if path:
+        a['path'] = path
+        with h5py.File(path, 'r') as f:
+            full = Table.from_hdf5(f)
+            a['h5_all'] = T.snapshot(full)
+            raw = {}
+            for ax in ('observation', 'sample'):
+                g = f[ax]
+                raw[ax] = {'ids': [i.decode('utf8') if isinstance(i, bytes) else str(i) for i in g['ids'][:]],
+                           'indptr': [int(x) for x in g['matrix/indptr'][:]],
+                           'indices': [int(x) for x in g['matrix/indices'][:]],
+                           'data': [float(x) for x in g['matrix/data'][:]]}
+            a['raw'] = raw
+            for ax in ('observation', 'sample'):
+                r = raw[ax]
+                if any(v == 0 for v in r['data']):
+                    a['stored'].append('file:%s-view-holds-stored-zero' % ax)
+                segs = [r['indices'][r['indptr'][i]:r['indptr'][i + 1]] for i in range(len(r['indptr']) - 1)]
+                if any(sg != sorted(sg) for sg in segs):
+                    a['stored'].append('file:%s-view-unsorted-indices' % ax)
     a['json_all'] = T.snapshot(parse_table(js))
     _ART[key] = a
     return a
@@ -232,7 +241,8 @@ def _same(x, y):
     x, y = canon(x), canon(y)
     for s in (x, y):
         for mk in ('omd', 'smd'):
-            if s[mk] is not None and len(s[mk]) == 0:
+            # metadata none of whose entries holds anything IS "no metadata" (constructor / filter rule, 16e406b1)
+            if s[mk] is not None and all(not m for m in s[mk]):
                 s[mk] = None
     return x == y
 
@@ -309,25 +319,32 @@ def _subsets(rng, ids, tier):
     return out
 
 
+ALL_READERS = ('h5', 'h5nomd', 'cmd_h5', 'json', 'cmd_json')
+
+
 def cases_for(rng, spec, gen_by, tier, readers=None):
+    readers = tuple(readers or ALL_READERS)
+    plain = [k for k in readers if k != 'cmd_json']
+    slicer = 'cmd_json' in readers
     base = {'spec': spec, 'gen': gen_by}
-    yield dict(base, kind='h5all')
+    if 'h5' in readers:
+        yield dict(base, kind='h5all')
     for axis in ('observation', 'sample'):
         ids = spec['oids'] if axis == 'observation' else spec['sids']
         for sub in _subsets(rng, ids, tier):
-            for k in readers or ('h5', 'h5nomd', 'cmd_h5', 'json'):
+            for k in plain:
                 yield dict(base, kind=k, axis=axis, ids=list(sub))
-            if not readers or 'cmd_json' in readers:
+            if slicer:
                 for ser in SERS:
                     yield dict(base, kind='cmd_json', axis=axis, ids=list(sub), ser=ser)
         # requests naming an id that is not in the file
         some = list(ids[:rng.randint(0, len(ids))])
         bad = some + [UNKNOWN]
         rng.shuffle(bad)
-        for k in ('h5', 'h5nomd', 'cmd_h5', 'json'):
+        for k in plain:
             yield dict(base, kind=k, axis=axis, ids=list(bad))
         ser = rng.choice(SERS)
-        if not readers or 'cmd_json' in readers:
+        if slicer:
             yield dict(base, kind='cmd_json', axis=axis, ids=list(bad), ser=ser)
         # unknown ids that are near misses of stored ones: a stored id of maximal length plus extra characters
         # (a reader that cuts the request to the stored fixed width would take it for the stored id), a proper
@@ -344,19 +361,31 @@ def cases_for(rng, spec, gen_by, tier, readers=None):
                 continue
             req = rest[:rng.randint(0, len(rest))] + [miss]
             rng.shuffle(req)
-            for k in ('h5', 'h5nomd', 'cmd_h5', 'json'):
+            for k in plain:
                 yield dict(base, kind=k, axis=axis, ids=list(req))
-            if not readers or 'cmd_json' in readers:
+            if slicer:
                 yield dict(base, kind='cmd_json', axis=axis, ids=list(req), ser=SERS[j % len(SERS)])
         # an id of the OTHER axis is unknown on this one
         oth = spec['sids'] if axis == 'observation' else spec['oids']
         if oth and oth[0] not in ids:
-            yield dict(base, kind='h5', axis=axis, ids=[oth[0]])
-            yield dict(base, kind='h5nomd', axis=axis, ids=[oth[0]])
+            for k in ('h5', 'h5nomd'):
+                if k in readers:
+                    yield dict(base, kind=k, axis=axis, ids=[oth[0]])
+
+
+def partial_md_cases(rng, tier):
+    """JSON documents in which only some ids carry metadata (the HDF5 writer refuses such tables): a subset
+    may keep only ids without metadata, and filter then leaves no metadata at all"""
+    for i in range(8 if tier == 'quick' else 80):
+        spec = T.rand_spec(rng, max_r=4, max_c=4, md='partial', alphabet=rng.choice(['short', 'short', 'latin1']))
+        for c in cases_for(rng, spec, 'g', tier, readers=('json', 'cmd_json')):
+            yield dict(c, stream='partial-metadata')
 
 
 def gen(rng, tier):
     for c in wide_cases(rng, tier):
+        yield c
+    for c in partial_md_cases(rng, tier):
         yield c
     n = 60 if tier == 'quick' else 600
     for i in range(n):
